@@ -276,6 +276,7 @@ pub fn gen_random(seed: u64, idx: u64) -> Plan {
                 c.reqs.push(sr.plan);
                 nonce += 1;
             }
+            fit_c2s(&mut c);
             conns.push(c);
             continue;
         }
